@@ -103,7 +103,7 @@ def gen_e2e(seed, r):
     for _ in range(r.randint(4, 14)):
         c = r.random()
         if c < 0.25:
-            ops.append(["enter", r.choice(names)])
+            ops.append(["enter", r.choice(names + ["bad"])])  # "bad": a backend whose initialisation failed (InvalidBackend object)
             depth += 1
         elif c < 0.45:
             if depth:
@@ -111,7 +111,7 @@ def gen_e2e(seed, r):
                 depth -= 1
         else:
             a = r.random()
-            arg = None if a < 0.5 else ({"name": r.choice(names + ["nope"])} if a < 0.8 else {"obj": r.choice(names)})
+            arg = None if a < 0.5 else ({"name": r.choice(names + ["nope"])} if a < 0.8 else {"obj": r.choice(names + ["bad"])})
             ops.append(["which", arg, r.choice(["nd", "scalars", "mixed"])])
     return {"seed": seed, "kind": "e2e", "ops": ops}
 
@@ -533,7 +533,8 @@ def _fingerprint(einx, np, arg, tensors_kind, tag):
     return ("fp", "einsum" in c1, "einsum" in c2, mn)
 
 
-FP = {"numpy": ("fp", False, True, True), "numpy.einsum": ("fp", True, True, False), "numpy.numpylike": ("fp", False, False, True)}
+FP = {"numpy": ("fp", False, True, True), "numpy.einsum": ("fp", True, True, False), "numpy.numpylike": ("fp", False, False, True),
+      "bad": ("exc", "ImportBackendError")}  # a failed backend raises when (and only when) it is the one selected
 
 
 def exec_e2e(case, cfg):
@@ -548,7 +549,8 @@ def exec_e2e(case, cfg):
     sigs = set()
     log = []
     bad = []
-    objs = {n: einx.backend.get(n) for n in FP}
+    objs = {n: einx.backend.get(n) for n in FP if n != "bad"}
+    objs["bad"] = seams.WORLD.B.InvalidBackend("bad", "initialisation failed (synthetic)")
     seams.reset_world(case["seed"])
     cms = []
     try:
